@@ -107,7 +107,42 @@ for spans, net0, eq0 in configs:
             if got_reason is not None or r_auto.tsp_mode not in ties:
                 wit.append({'key': key, 'problems': [f'chosen {r_auto.tsp_mode} ({got_reason}); feasible by fixed-mode planning: '
                                                      f'{[(m["format"], m["baud_rate"] / 1e9, m["bit_rate"] / 1e9) for m in feasible]}; expected one of {ties}']})
+# a bidirectional request without a mode on a line whose two directions differ: feasibility of a mode includes the reverse path
+# (known finding F52: the mode is selected on the forward direction only)
+from bounded.common import trx as _trx, roadm as _roadm, fiber as _fiber
+for back_km in (80, 100, 115):
+    els = [_trx('trx A'), _trx('trx B'), _roadm('roadm A'), _roadm('roadm B')] + [_fiber(f'ab{k}', 80) for k in range(2)] + [_fiber(f'ba{k}', back_km) for k in range(2)]
+    cons = [('trx A', 'roadm A'), ('roadm A', 'ab0'), ('ab0', 'ab1'), ('ab1', 'roadm B'), ('roadm B', 'trx B'),
+            ('trx B', 'roadm B'), ('roadm B', 'ba0'), ('ba0', 'ba1'), ('ba1', 'roadm A'), ('roadm A', 'trx A')]
+    net0, eq0 = design({'elements': els, 'connections': [{'from_node': x, 'to_node': y} for x, y in cons]})
+    probe, _ = plan(net0, library(eq0, [mode('p', 32e9, 100e9, 5, 50e9)]), dict(service('r', 'A', 'B', trx='synthetic', mode='p'), bidirectional=True))
+    _, pp_, rpp_, _, _, _ = planning(deepcopy(net0), library(eq0, [mode('p', 32e9, 100e9, 5, 50e9)]),
+                                     {'path-request': [dict(service('r', 'A', 'B', trx='synthetic', mode='p'), bidirectional=True)], 'synchronization': []})
+    g_fwd, g_rev = float(np.min(pp_[0][-1].snr_01nm)), float(np.min(rpp_[0][-1].snr_01nm))
+    margin = eq0['SI']['default'].sys_margins
+    lo, hi = min(g_fwd, g_rev), max(g_fwd, g_rev)
+    # 'hi' passes on the better direction only, 'lo' passes on both
+    modes = [mode('hi', 32e9, 200e9, round((lo + hi) / 2 - margin, 2), 50e9), mode('lo', 32e9, 100e9, round(lo - margin - 3, 2), 50e9)]
+    eq = library(eq0, modes)
+    cases += 1
+    key = f'bidirectional, no mode: 2x80 km forward, 2x{back_km} km back'
+    verdicts = {}
+    for m in modes:
+        r_fix, _ = plan(net0, eq, dict(service('r', 'A', 'B', trx='synthetic', mode=m['format']), bidirectional=True))
+        verdicts[m['format']] = not hasattr(r_fix, 'blocking_reason')
+    r_auto, _ = plan(net0, eq, dict(service('r', 'A', 'B', trx='synthetic', mode=None), bidirectional=True))
+    feasible = [m for m in modes if verdicts[m['format']]]
+    if hi - lo < 0.1 or not feasible:
+        continue
+    nontriv += 1
+    best = max(feasible, key=lambda m: (m['baud_rate'], m['bit_rate']))
+    if getattr(r_auto, 'blocking_reason', None) is not None or r_auto.tsp_mode != best['format']:
+        fwd_only = g_fwd > g_rev and r_auto.tsp_mode == 'hi' and getattr(r_auto, 'blocking_reason', None) == 'MODE_NOT_FEASIBLE'
+        wit.append({'key': 'bidirectional-automatic-mode-selected-on-the-forward-direction-only' if fwd_only else key,
+                    'problems': [f'{key}: GSNR forward {g_fwd:.2f} dB, reverse {g_rev:.2f} dB; fixed-mode verdicts {verdicts}; without a mode the '
+                                 f'request ends with mode {r_auto.tsp_mode}, {getattr(r_auto, "blocking_reason", None)}; expected mode {best["format"]}']})
 finish('automatic mode = feasible mode fitting the spacing with highest baud rate, then highest bit rate; blocking reasons', 'bounded',
        'gnpy.topology.request.propagate_and_optimize_mode (through gnpy.tools.worker_utils.planning)',
        f'line3 with 3x80 km and 5x100 km spans, {nsets} random synthetic transceiver libraries each (2-3 baud rates, 1-3 modes per baud rate, '
-       'thresholds 8..35 dB, penalties on some), spacings 50/75/100 GHz; oracle = fixed-mode planning per mode', cases, wit, nontrivial=nontriv, t0=t0)
+       'thresholds 8..35 dB, penalties on some), spacings 50/75/100 GHz; oracle = fixed-mode planning per mode; 3 bidirectional requests on lines with '
+       'unequal directions', cases, wit, nontrivial=nontriv, t0=t0)
